@@ -48,12 +48,16 @@ type Mesh struct {
 	UDPEcho  *net.UDPConn
 	Domain   string
 	FilesDir string
+	TCPEcho6 net.Listener // echo server on [::1] (nil when the host has no IPv6 loopback)
 
 	UDPSeen atomic.Int64 // datagrams that reached the UDP echo server
 
 	mu      sync.Mutex
 	derived []Derived
 	rxA     []Rx
+
+	icmpMu   sync.Mutex
+	icmpSess map[uint64]*icmpExitSess // harness-played ICMP exit, by stream id
 
 	cleanup []func()
 }
@@ -76,6 +80,13 @@ func (m *Mesh) AcksReceivedByA() []Rx {
 		}
 	}
 	return out
+}
+
+// RxA returns copies of all frames A has received so far.
+func (m *Mesh) RxA() []Rx {
+	m.mu.Lock()
+	defer m.mu.Unlock()
+	return append([]Rx(nil), m.rxA...)
 }
 
 func (m *Mesh) Close() {
@@ -164,6 +175,19 @@ func Start() (*Mesh, error) {
 			go func() { defer cn.Close(); io.Copy(cn, cn) }()
 		}
 	}()
+	if tl6, err := net.Listen("tcp", "[::1]:0"); err == nil {
+		m.TCPEcho6 = tl6
+		m.cleanup = append(m.cleanup, func() { tl6.Close() })
+		go func() {
+			for {
+				cn, err := tl6.Accept()
+				if err != nil {
+					return
+				}
+				go func() { defer cn.Close(); io.Copy(cn, cn) }()
+			}
+		}()
+	}
 	ul, err := net.ListenUDP("udp", &net.UDPAddr{IP: net.IPv4(127, 0, 0, 1)})
 	if err != nil {
 		return nil, err
@@ -220,6 +244,11 @@ func Start() (*Mesh, error) {
 	cfgB.FileTransfer.AllowedPaths = []string{"*"}
 	cfgB.UDP.Enabled = true
 	cfgB.Forward.Endpoints = []config.ForwardEndpoint{{Key: "svc", Target: tl.Addr().String()}}
+	if m.TCPEcho6 != nil {
+		// the exit-side socket of this endpoint is bound to an IPv6 address, so
+		// its STREAM_OPEN_ACK carries a 16-byte bound address
+		cfgB.Forward.Endpoints = append(cfgB.Forward.Endpoints, config.ForwardEndpoint{Key: "svc6", Target: m.TCPEcho6.Addr().String()})
+	}
 
 	cfgA := config.Default()
 	cfgA.Agent.DataDir = dirA
@@ -267,6 +296,19 @@ func Start() (*Mesh, error) {
 		m.mu.Unlock()
 		A.VerifProcessFrame(p, f)
 	})
+	// B's side: ICMP tunnels are served by the harness itself (the sandbox has
+	// no ICMP sockets, so B could only answer ICMP_OPEN_ERR); everything else
+	// goes to B's own dispatcher.
+	m.icmpSess = map[uint64]*icmpExitSess{}
+	B := m.B
+	B.VerifPeerManager().SetFrameCallback(func(p identity.AgentID, f *protocol.Frame) {
+		switch f.Type {
+		case protocol.FrameICMPOpen, protocol.FrameICMPEcho, protocol.FrameICMPClose:
+			m.icmpExitFrame(p, f)
+		default:
+			B.VerifProcessFrame(p, f)
+		}
+	})
 	pm.DisconnectAll()
 	WaitFor(5*time.Second, func() bool { return m.B.Stats().PeerCount == 0 })
 	ctx, cancel := context.WithTimeout(context.Background(), 30*time.Second)
@@ -274,7 +316,7 @@ func Start() (*Mesh, error) {
 	cancel()
 	if !WaitFor(60*time.Second, func() bool {
 		st := m.A.Stats()
-		return st.PeerCount == 1 && m.B.Stats().PeerCount == 1 && st.RouteCount > 0 && m.A.LookupForwardRoute("svc") != nil && len(m.A.GetDomainRouteDetails()) > 0 && m.rxLen() > 0
+		return st.PeerCount == 1 && m.B.Stats().PeerCount == 1 && st.RouteCount > 0 && m.A.LookupForwardRoute("svc") != nil && (m.TCPEcho6 == nil || m.A.LookupForwardRoute("svc6") != nil) && len(m.A.GetDomainRouteDetails()) > 0 && m.rxLen() > 0
 	}) {
 		return nil, fmt.Errorf("mesh did not converge again after installing the frame tap")
 	}
